@@ -511,6 +511,18 @@ func (obj *Flavor) LoadForm() slip.Object {
 	for i, k := range keys {
 		ksym := slip.Symbol(k)
 		if v := obj.defaultVars[k]; v != nil || !obj.noDefault[k] {
+			// The default is a value, a symbol or list has to be quoted to
+			// stay that value when the form is evaluated.
+			switch tv := v.(type) {
+			case slip.Symbol:
+				if 0 < len(tv) && tv[0] != ':' {
+					v = slip.List{slip.Symbol("quote"), tv}
+				}
+			case slip.List:
+				if 0 < len(tv) {
+					v = slip.List{slip.Symbol("quote"), tv}
+				}
+			}
 			ivs[i] = slip.List{ksym, v}
 		} else {
 			ivs[i] = ksym
